@@ -5,6 +5,7 @@ from ..report import where
 from ..facts import in_module
 from .. import storemodel as sm, pairing
 from .. import storerules as sr
+from .. import orderdom as od
 
 LEVEL = "other"
 STORE_ERR_FNS = ("set_node_property",)
@@ -42,6 +43,104 @@ def run(ctx, F, cg):
     ctx.rule("R11d", "every fallible store mutator rejects (constraint violation, missing node) before its first mutation: a refused write leaves the constraint index and the node untouched")
     sr.remove_before_insert(ctx, F, cg, "R11c", pairs=(("constraint_insert", "constraint_remove"),))
     sr.validate_then_mutate(ctx, F, cg, "R11d", kinds=("prop-set", "prop-kill", "label-add", "label-kill", "node-add"), floor=3)
+    ctx.rule("R11e", "a unique constraint is registered before its index is filled: constraint_insert ignores a (label, property) pair that is not registered, so in any function doing both, create_unique_constraint dominates every constraint_insert")
+    n_e = 0
+    for p, r in sorted(F.fns.items()):
+        if "::tests::" in p:
+            continue
+        if any(c.endswith("::create_unique_constraint") for c in r["calls"]) and any(c.endswith("::constraint_insert") for c in r["calls"]):
+            b = Body(F.mir(p), r)
+            ctx.saw_fn(p)
+            n_e += 1
+            reg = [c for c in b.calls() if c.path.endswith("::create_unique_constraint")]
+            ins = [c for c in b.calls() if c.path.endswith("::constraint_insert")]
+            short = p.replace("samyama::query::executor::operator::", "").replace("samyama::", "")
+            late = [c for c in ins if not any(b.dominates(g.bb, c.bb) and g.bb != c.bb for g in reg)]
+            if late:
+                ctx.violation("R11e", short + "|backfill-before-registration", where(r, late[0].line),
+                              "%s fills the constraint index (line %d) before the constraint is registered: constraint_insert drops values of an unregistered pair, so the index starts empty and existing values can be duplicated afterwards" % (short, late[0].line))
+            else:
+                ctx.ok("R11e", short, "registration dominates %d backfill insertion(s)" % len(ins))
+    ctx.floor("R11e", "functions that register a constraint and fill its index", n_e, 1)
+    ctx.rule("R11f", "every mutator through which a node can *start* to hold a constrained value under a label (property write, label addition) looks the value up in the constraint index before mutating (refusing a duplicate) and registers it: otherwise `SET n:L` puts two equal values under :L and later writes cannot see them")
+    for kind in ("prop-set", "label-add"):
+        for n in sm.KINDS[kind]:
+            r = sm.fn_of(F, n)
+            if r is None:
+                ctx.anchor_failure("R11f", sm.GS + "::" + n)
+                continue
+            if n == "set_column_property":
+                continue    # known finding under R11a (bulk column write)
+            b = Body(F.mir(r["path"]), r)
+            ctx.saw_fn(r["path"]); ctx.saw_calls(len(b.calls()))
+            looks = [c for c in b.calls() if c.path.endswith("IndexManager::unique_constraint_holder") or c.path.endswith("IndexManager::check_unique_constraint")]
+            regs = [c for c in b.calls() if c.path.endswith("IndexManager::constraint_insert")]
+            viol = [i for i, j, pl, rv, line, exp in b.stmts() if rv[0] == "agg" and rv[1].endswith("GraphError::ConstraintViolation")]
+            if looks and regs and viol:
+                ctx.ok("R11f", "%s|%s" % (kind, n), "looks the value up (%d), can refuse, and registers it (%d)" % (len(looks), len(regs)))
+            else:
+                ctx.violation("R11f", "%s|%s|gains-without-constraint" % (kind, n), where(r),
+                              "GraphStore::%s lets a node start holding a value under a constrained label without %s" % (n, " and ".join(x for x, ok in (("looking it up in the constraint index", looks), ("refusing a duplicate", viol), ("registering it", regs)) if not ok)))
+    ctx.rule("R11g", "overwriting a constrained value releases it whatever the new value is: from both sides of every is_null test on the new value in set_node_property a constraint_remove is reachable")
+    sp_ = sm.fn_of(F, "set_node_property")
+    if sp_ is None:
+        ctx.anchor_failure("R11g", "GraphStore::set_node_property")
+    else:
+        b = Body(F.mir(sp_["path"]), sp_)
+        rem = {c.bb for c in b.calls() if c.path.endswith("IndexManager::constraint_remove")}
+        tests = [c for c in b.calls() if c.path.endswith("PropertyValue::is_null") and c.target is not None]
+        bad = None
+        for c in tests:
+            # the switch on this test's result (directly or through `!` / `&&` lowering)
+            for i in sorted(b.live_blocks()):
+                t = b.blocks[i]["t"]
+                if t[0] != "switch" or t[1][0] == "k":
+                    continue
+                e = od.expr_of(b, t[1])
+                if not any(x[0] == "call" and x[2] == c.bb for x in od.roots(e)):
+                    continue
+                for s_ in b.succ(i):
+                    if not (b.reachable(s_, avoid={i}) & rem) and not (s_ in rem):
+                        # a side from which no release is reachable: acceptable only if the release already happened
+                        if not any(b.dominates(rb, i) for rb in rem):
+                            bad = c
+        # data form of the same skip: the release loop iterates a collection that one side of an is_null test
+        # defines as an empty Vec
+        if bad is None:
+            rem_calls = [c for c in b.calls() if c.path.endswith("IndexManager::constraint_remove")]
+            iters = [c for c in b.calls() if c.path.rsplit("::", 1)[-1] in ("into_iter", "iter") and any(b.dominates(c.bb, rc.bb) for rc in rem_calls)]
+            for it in iters:
+                if not it.args or it.args[0][0] == "k":
+                    continue
+                coll = od.chain_locals(b, it.args[0], through=("deref", "as_ref", "borrow", "as_slice", "iter", "into_iter"))
+                for l in coll:
+                    ds = b.defs().get(l, [])
+                    if len(ds) < 2:
+                        continue
+                    def empty(d):
+                        return d[0] == "call" and d[2].path.rsplit("::", 1)[-1] in ("new", "default") and "Vec" in d[2].path
+                    def blk(d):
+                        return d[1]
+                    for c in tests:
+                        for i in sorted(b.live_blocks()):
+                            t = b.blocks[i]["t"]
+                            if t[0] != "switch" or t[1][0] == "k":
+                                continue
+                            e = od.expr_of(b, t[1])
+                            if not (any(x[0] == "call" and x[2] == c.bb for x in od.roots(e)) or _cond_chain_has(b, i, c)):
+                                continue
+                            for s_ in b.succ(i):
+                                reach = b.reachable(s_, avoid={i})
+                                dr = [d for d in ds if blk(d) in reach]
+                                if dr and all(empty(d) for d in dr):
+                                    bad = c
+        if not rem:
+            ctx.violation("R11g", "set_node_property|no-release", where(sp_), "set_node_property never releases the overwritten value")
+        elif bad is not None:
+            ctx.violation("R11g", "set_node_property|release-skipped-for-null", where(sp_, bad.line),
+                          "set_node_property skips the constraint code on one side of an is_null test of the new value: SET n.p = null overwrites the old value but leaves it taken in the constraint index")
+        else:
+            ctx.ok("R11g", "set_node_property", "a release is reachable from both sides of %d is_null test(s)" % len(tests))
     ctx.rule("R04b", "no Result of a constraint-checking store write is discarded by a write operator (a swallowed ConstraintViolation reports success and C05 cannot even see the failure)")
     pairing.matrix(ctx, F, cg, "R11a", "constraint-index", ["IndexManager::constraint_insert"],
                    ["IndexManager::constraint_remove", "IndexManager::constraint_delete", "IndexManager::constraint_release", "IndexManager::release_unique_value"],
@@ -81,3 +180,8 @@ def run(ctx, F, cg):
         ctx.ok("R04b", "no-dropped-store-results", "all %d call sites use the Result" % total)
     return ("Decided: whether each way a node can give up a constrained value releases it in the constraint index, that the check precedes the writes, and that "
             "write operators do not discard the store's constraint error. Not decided: value equality classes of the index keys (C10).")
+
+
+def _cond_chain_has(b, sw_block, test_call):
+    """`a && !is_null(v)` lowers to nested switches: the switch at sw_block is reached only through the test's block"""
+    return test_call.target is not None and (test_call.target == sw_block or (b.dominates(test_call.bb, sw_block) and sw_block in b.succ(test_call.target)))
